@@ -17,4 +17,9 @@ var pureFunSpecs = []pfSpec{
 		reads: []string{"GetAssetRatesParams"}},
 	{pkg: "x/lend/keeper", recv: "Keeper", fn: "GetLendAPRByAssetIDAndPoolID", coq: "gen_lend_GetLendAPR",
 		reads: []string{"GetAssetRatesParams"}},
+	// x/auctionsV2/keeper/maths.go (C10)
+	{pkg: "x/auctionsV2/keeper", fn: "Multiply", coq: "gen_auctionsV2_Multiply"},
+	{pkg: "x/auctionsV2/keeper", recv: "Keeper", fn: "GetCollalteralTokenInitialPrice", coq: "gen_auctionsV2_InitialPrice"},
+	{pkg: "x/auctionsV2/keeper", recv: "Keeper", fn: "GetPriceFromLinearDecreaseFunction", coq: "gen_auctionsV2_LinearPrice"},
+	{pkg: "x/auctionsV2/keeper", recv: "Keeper", fn: "GetCollateralTokenEndPrice", coq: "gen_auctionsV2_EndPrice"},
 }
